@@ -8,6 +8,7 @@ import (
 	"sort"
 	"strconv"
 	"strings"
+	gotime "time"
 
 	"github.com/jotaen/klog/klog"
 	"github.com/jotaen/klog/klog/app/cli"
@@ -920,6 +921,48 @@ func c12TodayEV(c *fw.Ctx, i int) {
 		c.Outcome("today-ev")
 		if !now {
 			continue
+		}
+		// `klog tags --now`: a tag's total includes the time of its open range closed at the clock reading (the EV
+		// documents carry #x on the open range only)
+		{
+			wantX, hasX := 0, false
+			for _, rec := range recs {
+				for _, e := range rec.Entries {
+					for _, tg := range sm.ScanSummaryTags(e.Summary) {
+						if tg.Name == "x" {
+							wantX, hasX = wantX+e.Minutes(), true
+						}
+					}
+				}
+			}
+			rt := clidrv.Exec(home, o, &cli.Tags{NowArgs: cliutil.NowArgs{Now: true}, DecimalArgs: cliutil.DecimalArgs{Decimal: true}, NoStyleArgs: cliutil.NoStyleArgs{NoStyle: true}, WarnArgs: cliutil.WarnArgs{NoWarn: true}, InputFilesArgs: fileArgs(path)})
+			gotX, foundX := 0, false
+			for _, l := range strings.Split(rt.Stdout, "\n") {
+				if f := strings.Fields(l); len(f) >= 2 && f[0] == "#x" {
+					gotX, _ = strconv.Atoi(f[1])
+					foundX = true
+				}
+			}
+			if rt.Panicked || rt.Code != 0 || foundX != hasX || gotX != wantX {
+				c.Violation("tags-now", c12Case{"today-ev", i, fw.Txt(text), []string{"tags", "--now"}}, fmt.Sprintf("`klog tags --now` at %d:%02d (exit %d, panic %v) prints\n%s\nexpected #x = %d minutes (present: %v)", clk[0], clk[1], rt.Code, rt.PanicVal, rt.Stdout, wantX, hasX))
+				return
+			}
+		}
+		// a running `klog today --diff --now --follow`: the second refresh, 30 minutes later, equals a fresh run then
+		if i%8 == 0 {
+			t0 := o.Now
+			why, stack := followVsOneShot(home, dir, []string{text, text}, []gotime.Time{t0, t0.Add(30 * gotime.Minute)}, func(follow bool, p string) clidrv.Runner {
+				return &cli.Today{DiffArgs: cliutil.DiffArgs{Diff: true}, NowArgs: cliutil.NowArgs{Now: true}, Follow: follow, NoStyleArgs: cliutil.NoStyleArgs{NoStyle: true}, WarnArgs: cliutil.WarnArgs{NoWarn: true}, InputFilesArgs: fileArgs(p)}
+			})
+			if why != "" {
+				sig := "today-follow"
+				if stack != "" {
+					sig = "panic:today-follow:" + fw.PanicSite(stack)
+				}
+				c.Violation(sig, c12Case{"today-ev", i, fw.Txt(text), []string{"today", "--diff", "--now", "--follow"}}, why+"\n"+stack)
+				return
+			}
+			c.Count("follow_cases", 1)
 		}
 		// filter first, then close: `klog total --now --entry-type T` and the grand total of `klog report` under the same
 		// flags equal the reference total of the FILTERED records with their open ranges closed at the clock reading
